@@ -55,7 +55,14 @@ func vfNext(kind string) uint64 {
 	if vfW == nil {
 		panic("vf: no witness loaded (harness run natively without replay)")
 	}
+	for vfPos < len(vfW.Nondets) && vfW.Nondets[vfPos].Kind == "internal" {
+		vfPos++ // engine-internal choices are not harness inputs
+	}
 	if vfPos >= len(vfW.Nondets) {
+		if vfW.Kind == "race" {
+			// a race witness ends where the race was seen: run on with arbitrary inputs
+			return 0
+		}
 		panic(vfExhausted{})
 	}
 	v := vfW.Nondets[vfPos]
@@ -250,6 +257,9 @@ func vfArm(id int) {
 // vfNextSched reads the next scheduling decision from the witness (-1: none).
 func vfNextSched() int {
 	defer func() { recover() }()
+	for vfW != nil && vfPos < len(vfW.Nondets) && vfW.Nondets[vfPos].Kind == "internal" {
+		vfPos++
+	}
 	if vfW == nil || vfPos >= len(vfW.Nondets) {
 		return -1
 	}
@@ -425,3 +435,7 @@ func vfUF(tag string, in []byte, n int) []byte {
 	}
 	panic("vfUF: unknown tag " + tag)
 }
+
+// vfTimersFire tells the engine whether timers armed by the library may expire
+// on this path (natively: the harness chooses deadlines accordingly).
+func vfTimersFire(b bool) {}
